@@ -27,9 +27,18 @@ func runFaultSuite(seed uint64, n int, out *Out, stats *Stats) {
 			for _, h := range w.helpers {
 				h.Pool.Validate(w.now)
 			}
+			seeded := false
 			for len(w.host.AllBlocks()) < hostLen {
 				w.tickAll()
-				if r.Chance(1, 2) {
+				if !seeded && len(w.host.AllBlocks()) >= 2 {
+					// register several addresses: yielding outputs to three wallets
+					if conf := w.confirmed(w.host, w.wallets[0]); len(conf) > 0 && conf[0].value > 10*w.set.Fee+100 {
+						share := (conf[0].value - w.set.Fee) / 4
+						outs := []*JOutput{{w.wallets[1].Addr, true, share}, {w.wallets[2].Addr, true, share}, {w.wallets[3].Addr, true, share}, {w.wallets[0].Addr, false, share}}
+						w.rec.Admit(w.build(&txPlan{ins: []spendable{conf[0]}, outs: outs, ts: w.now - w.set.Interval}))
+						seeded = true
+					}
+				} else if r.Chance(1, 2) {
 					tx, _ := w.genTx(w.host)
 					w.rec.Admit(tx)
 				}
@@ -37,21 +46,26 @@ func runFaultSuite(seed uint64, n int, out *Out, stats *Stats) {
 			}
 			for _, h := range w.helpers {
 				helperSync(h, w.now, []*Peer{honestPeer("10.0.0.1:10600", w.host)})
-				for k := 0; k < 1+r.Intn(2); k++ {
-					h.Pool.Validate(w.now + int64(k+1)*w.set.Interval)
-				}
 			}
-			w.now += 2 * w.set.Interval
-			// pending removals, so that candidates can list them
-			if r.Chance(1, 2) {
-				ans := map[string]int{}
+			// pending removals on every node (same proof-of-humanity answers), so that the
+			// candidates' blocks list addresses that are pending on the host too
+			ans := map[string]int{}
+			if r.Chance(3, 4) {
 				for _, wl := range w.wallets {
-					if r.Chance(1, 2) {
+					if r.Chance(2, 3) {
 						ans[wl.Addr] = 0
 					}
 				}
 				w.rec.RegSync(ans)
 			}
+			for _, h := range w.helpers {
+				h.Humans.answer = ans
+				h.Areg.Synchronize(0)
+				for k := 0; k < 1+r.Intn(3); k++ {
+					h.Pool.Validate(w.now + int64(k+1)*w.set.Interval)
+				}
+			}
+			w.now += 3 * w.set.Interval
 		}
 		time.Sleep(w.set.Timeout + 10*time.Millisecond)
 		baseline := runtime.NumGoroutine()
